@@ -22,7 +22,7 @@ from harness import common, lifecycle, tlc
 
 PUBLISH_LOCK = threading.Lock()  # package import machinery (sys.path, importer caches) is process-global
 
-NPIPES = 10
+NPIPES = 12
 
 
 def cfg(pipe, maxgen, depth, path):
@@ -77,7 +77,7 @@ def run_history(args):
         gens = 0
         for k, ev in enumerate(rec['hist']):
             if isolate:
-                spec = {'registry': reg, 'op': ev['op'], 'g': ev['g'], 'cwd': work, 'out': os.path.join(work, f'obs{k}.json')}
+                spec = {'registry': reg, 'op': ev['op'], 'g': ev['g'], 'w': ev.get('w', 'none'), 'cwd': work, 'out': os.path.join(work, f'obs{k}.json')}
                 json.dump(spec, open(os.path.join(work, f'spec{k}.json'), 'w'))
                 env = dict(os.environ, FORML_HOME=work)
                 proc = subprocess.run([sys.executable, '-W', 'ignore', '-m', 'harness.lifecycle', os.path.join(work, f'spec{k}.json')],
@@ -87,7 +87,7 @@ def run_history(args):
                 obs = json.load(open(spec['out']))
             else:
                 try:
-                    obs = lifecycle.step(reg, ev['op'], ev['g'])
+                    obs = lifecycle.step(reg, ev['op'], ev['g'], ev.get('w', 'none'))
                 except Exception as exc:  # pylint: disable=broad-except
                     obs = {'error': f'{type(exc).__name__}: {exc}'}
             problem = judge(ev, obs, gens)
@@ -105,10 +105,12 @@ def main(chk):
     logging.disable(logging.ERROR)
     rnd = random.Random(chk.seed)
     tmp = os.getcwd()
-    maxgen, depth = (2, 4) if chk.quick else (3, 5)
+    maxgen, depth = (2, 4) if chk.quick else (2, 5)   # (3, 5): 12k states per pipeline but ~10 GB of terms each
     histories = []
-    for pipe in range(1, NPIPES + 1):
-        res = chk.tlc('Lifecycle', cfg(pipe, maxgen, depth, os.path.join(tmp, f'lc{pipe}.cfg')), require=['Train', 'Load', 'Race'], workers=4)
+    with concurrent.futures.ThreadPoolExecutor(max_workers=4) as pool:     # one TLC process per pipeline, four at a time
+        runs = list(pool.map(lambda pipe: chk.tlc('Lifecycle', cfg(pipe, maxgen, depth, os.path.join(tmp, f'lc{pipe}.cfg')),
+                                                  require=['Train', 'Load', 'Race'], workers=4, heap='12g'), range(1, NPIPES + 1)))
+    for pipe, res in enumerate(runs, start=1):
         recs = res.json_prints()
         if not recs:
             raise tlc.MachineryError(f'Lifecycle.tla pipeline {pipe}: nothing exported')
